@@ -44,7 +44,7 @@ func (rt *Transfer) deleteFiles(fileList []*File) error {
 			if findInFileList(fileList, path) {
 				return nil
 			}
-			if rt.Excluded != nil && rt.Excluded(path) {
+			if rt.Excluded != nil && rt.Excluded(path, info.IsDir()) {
 				// protected by an exclude rule
 				if info.IsDir() {
 					return fs.SkipDir
